@@ -179,6 +179,11 @@ def drive(recipe):
                 if how == "f32":
                     return X.astype(np.float32)
                 return X.copy()
+            a1, b1 = arg(A), arg(B)
+            kabsch_rotation_matrix(a1, b1), reorient_points(a1, b1), rmsd_points(a1, b1)
+            if not (np.array_equal(np.asarray(a1, dtype=float), A) and np.array_equal(np.asarray(b1, dtype=float), B)):
+                t["exc"] = "ArgumentMutated"          # the caller's point sets must come back untouched
+                return t
             R = np.asarray(kabsch_rotation_matrix(arg(A), arg(B)), dtype=float)
             AR = np.asarray(reorient_points(arg(A), arg(B)), dtype=float)
             rm = float(rmsd_points(arg(A), arg(B)))
